@@ -445,7 +445,9 @@ func (res *CheckResult) checkSource(source parser.Source) {
 			res.unboundedAccountInSend = source.Address
 		}
 
-		if res.unboundedSend {
+		// only an unbounded overdraft is forbidden in a send-all statement:
+		// an account with a bounded overdraft can be emptied down to its limit
+		if res.unboundedSend && source.Bounded == nil {
 			res.Diagnostics = append(res.Diagnostics, Diagnostic{
 				Range: source.Address.GetRange(),
 				Kind:  &InvalidUnboundedAccount{},
